@@ -47,6 +47,8 @@ func runStatic(prog *Prog, sc StaticCheck) *StaticResult {
 		return runTypeImmutable(prog, sc)
 	case "forbid-map-range":
 		return runForbidMapRange(prog, sc)
+	case "store-origin":
+		return runStoreOrigin(prog, sc)
 	case "global-state":
 		return runGlobalState(prog, sc)
 	case "call-order":
@@ -1245,5 +1247,75 @@ func runGlobalState(prog *Prog, sc StaticCheck) *StaticResult {
 	}
 	sort.Strings(ws)
 	res.Samples = append(res.Samples, map[string]interface{}{"obligation": "package variables written outside initialisers in " + sc.Args["pkgs"] + " are exactly the allow-listed ones", "backend": "static store scan", "functions": nfn, "written": ws})
+	return res
+}
+
+// runStoreOrigin: in the function, every store through a pointer obtained by a type assertion (or type-switch case) to
+// *<elem> stores exactly the named parameter — the value is neither trimmed, re-cased nor rebuilt on the way — and at
+// least one such store exists. args: func, param, elem (e.g. string).
+func runStoreOrigin(prog *Prog, sc StaticCheck) *StaticResult {
+	res := &StaticResult{Name: sc.Name, Kind: sc.Kind}
+	fn := prog.FindFunc(modPath+"/"+sc.Pkg, sc.Args["func"])
+	if fn == nil {
+		res.Obligations = 1
+		res.Failures = append(res.Failures, "binding: function "+sc.Args["func"]+" not found")
+		return res
+	}
+	var param *ssa.Parameter
+	for _, p := range fn.Params {
+		if p.Name() == sc.Args["param"] {
+			param = p
+		}
+	}
+	if param == nil {
+		res.Obligations = 1
+		res.Failures = append(res.Failures, "binding: parameter "+sc.Args["param"]+" not found")
+		return res
+	}
+	fromAssert := func(v ssa.Value) bool {
+		for depth := 0; depth < 4; depth++ {
+			switch x := v.(type) {
+			case *ssa.TypeAssert:
+				return true
+			case *ssa.Extract:
+				v = x.Tuple
+				continue
+			case *ssa.Phi:
+				for _, e := range x.Edges {
+					if _, ok := e.(*ssa.Const); !ok {
+						v = e
+					}
+				}
+				continue
+			}
+			return false
+		}
+		return false
+	}
+	n := 0
+	for _, b := range fn.Blocks {
+		for _, in := range b.Instrs {
+			st, ok := in.(*ssa.Store)
+			if !ok {
+				continue
+			}
+			pt, ok := st.Addr.Type().Underlying().(*types.Pointer)
+			if !ok || pt.Elem().String() != sc.Args["elem"] || !fromAssert(st.Addr) {
+				continue
+			}
+			n++
+			res.Obligations++
+			if st.Val == param {
+				res.Discharged++
+			} else {
+				res.Failures = append(res.Failures, fmt.Sprintf("%s stores a value other than its parameter %s into the *%s field at %s (the value is transformed on the way)", sc.Args["func"], sc.Args["param"], sc.Args["elem"], posOf(prog, st.Pos())))
+			}
+		}
+	}
+	if n == 0 {
+		res.Obligations++
+		res.Failures = append(res.Failures, fmt.Sprintf("binding: %s has no store through a type-asserted *%s (stale obligation)", sc.Args["func"], sc.Args["elem"]))
+	}
+	res.Samples = append(res.Samples, map[string]interface{}{"obligation": fmt.Sprintf("%s#every *%s field store writes parameter %s itself", sc.Args["func"], sc.Args["elem"], sc.Args["param"]), "backend": "SSA def-use", "stores": n})
 	return res
 }
